@@ -359,6 +359,29 @@ def rule_r3(ctx: Ctx) -> None:
                         ok, why = mok, (mwhy if mok is not None else f"alignment decided neither by the spelling ({why}) nor by the model ({mwhy})")
                 ctx.ob("C19.R3", f, c, f"weights passed to choice_weighted are aligned with {norm(ch)[:40]}", ok, "" if ok else why)
     ctx.floor("C19.R3", n, 3, "weighted-choice call sites")
+    # the stack mapper weighs the *types it targets*: interpreted (sa/rules/stackmodel.py) with a grammar-weight table over an abstract symbol, its two
+    # productions and a base type, every candidate handed to choice_weighted must carry the grammar's weight of that very candidate (1 when it has none)
+    from ..modelinterp import TypeV as _T, BUILTIN_TYPES as _BT
+    from .stackmodel import run_stack
+    A_, P_, Q_ = _T("class", "A"), _T("class", "P"), _T("class", "Q")
+    table = {A_: 0.25, P_: 0.0, Q_: 0.75, _BT["int"]: 0.5}
+    cap: list = []
+    sm = prog.functions.get("geneticengine.representations.stackgggp:create_tree_using_stacks")
+    try:
+        run_stack(ctx, A_, [Q_, A_], {P_: [("v", _BT["int"])], Q_: []}, {A_: [P_, Q_]}, [A_, P_, Q_, _BT["int"], _BT["float"]], weights=table, capture=cap)
+    except Exception as ex_:          # the model is auxiliary here: what it cannot follow is reported as undecided below
+        cap = []
+    verdict_, why_ = None, "the stack mapper's weighted choice is not reached in the model"
+    for opts_, ws_ in cap[:1]:
+        if ws_ is None or len(opts_) != len(ws_) or not all(isinstance(w_, (int, float)) and not isinstance(w_, bool) for w_ in ws_):
+            verdict_, why_ = None, "the weights handed to choice_weighted are not followed"
+            break
+        wrong_ = [(o_, w_) for o_, w_ in zip(opts_, ws_) if w_ != table.get(o_, 1)]
+        verdict_ = not wrong_
+        why_ = "" if not wrong_ else (f"the candidate {getattr(wrong_[0][0], 'name', wrong_[0][0])} is handed to choice_weighted with weight {wrong_[0][1]}, the grammar's weight "
+                                      f"for it is {table.get(wrong_[0][0], 1)}: the stack mapper does not choose in proportion to the production weights "
+                                      f"(a symbol of weight 0 can be targeted)")
+    ctx.ob("C19.R3", sm, sm.node if sm else None, "stack mapper: every candidate type carries the grammar's weight of that very candidate", verdict_, why_)
 
 
 def _weighted_chooser_call(ctx: Ctx, f: FunctionInfo, order: tuple, declared: dict, dist: dict, rec: tuple, depth: int, deepest: int, state: Optional[dict] = None,
